@@ -125,6 +125,7 @@ type Enc struct {
 	content   bool
 	owner     bool
 	localRefs map[string]bool // objects allocated by the function under verification (not yet shared)
+	repCompsMap map[string]string
 	ioCount   string // number of calls of io_effect functions so far on the current path (SMT term)
 	cellVal   map[string]string // value last stored into a local cell (by cell reference), shared by all frames
 	fpFuns    []string
